@@ -170,6 +170,8 @@ def isinstance_chain(fn, var, repo=None, module="encoder"):
         if isinstance(t, ast.Call) and isinstance(t.func, ast.Name) and t.func.id == "isinstance" and len(t.args) == 2 \
                 and isinstance(t.args[0], ast.Name) and t.args[0].id == var:
             ty = t.args[1]
+            if isinstance(ty, ast.Name) and ty.id in local_tuples:
+                ty = local_tuples[ty.id]
             if isinstance(ty, ast.Name) and repo is not None:
                 mc = repo.module_constant(module, ty.id)
                 if isinstance(mc, ast.Tuple):
@@ -180,12 +182,19 @@ def isinstance_chain(fn, var, repo=None, module="encoder"):
         return None
     from .flow import _terminates
     chain = []
+    local_tuples = {}
     body = [s_ for s_ in fn.body if not (isinstance(s_, ast.Expr) and isinstance(s_.value, ast.Constant))]
     i = 0
     while i < len(body):
         s_ = body[i]
         if not isinstance(s_, ast.If):
             i += 1
+            # a named type tuple between two guards (date_types = (datetime.datetime, ...)) belongs to the dispatch
+            if isinstance(s_, ast.Assign) and len(s_.targets) == 1 and isinstance(s_.targets[0], ast.Name) and s_.targets[0].id != var \
+                    and isinstance(s_.value, (ast.Tuple, ast.Name, ast.Attribute)):
+                if isinstance(s_.value, ast.Tuple):
+                    local_tuples[s_.targets[0].id] = s_.value
+                continue
             if chain:
                 break
             continue
